@@ -674,7 +674,7 @@ impl Gen {
             1 => OpKind::GetMut { slot, h, touch: true, write: w },
             2 => OpKind::Contains { slot, h },
             3 => OpKind::Insert { slot, h, payload: p, generic: self.rng.chance(1, 3) },
-            4 => OpKind::Remove { slot, h },
+            4 => OpKind::Remove { slot, h, lend: self.rng.chance(1, 3) },
             5 => OpKind::Entry { slot, h, op: *self.rng.pick(&ENTRY_OPS), payload: p, write: w },
             6 => OpKind::GetMutOrDefault { slot, h, touch: true, write: w },
             7 => OpKind::LendGet { slot, h },
@@ -827,7 +827,7 @@ impl Gen {
             }
             Remove => {
                 let slot = self.slot(ex);
-                OpKind::Remove { slot, h: self.target(ex, slot)? }
+                OpKind::Remove { slot, h: self.target(ex, slot)?, lend: self.rng.chance(1, 5) }
             }
             Contains => {
                 let slot = self.slot(ex);
